@@ -303,9 +303,8 @@ undef(void)
 	entry = mapput(&macros, &k);
 	m = *entry;
 	if (m) {
+		/* the definition is kept: an invocation of m may be collecting its arguments */
 		free(name);
-		free(m->param);
-		free(m->token);
 		*entry = NULL;
 	}
 	scan(&tok);
